@@ -216,6 +216,12 @@ def run_case(tier, seed, i):
     if e is not None:
         return {"status": "skip", "nontrivial": False, "tags": tags + ["fit_" + ("assertion" if common.is_assertion(e) else "internal_error:" + common.exc_name(e))], "counters": counters, "sample": sample}
     fit_obj = obj
+    # objects edited through valid update_discretizer calls (ordered features only: a user may merge any two categories)
+    edits = fitted.maybe_edit(rng, case, obj, which, p=0.25, categorical=False)
+    if edits:
+        tags.append("edited")
+        counters["edited_objects"] = 1
+        sample["edits"] = [d for d, _, _ in edits]
     if rng.random() < 0.5:
         rel, e = common.guarded(fitted.json_reload, obj)
         if e is None:
